@@ -7,6 +7,8 @@
 //!   c06_reply  : [op selector][bit0 need_reply][nfds 0..=3] reply bytes...    -> props::c06::FeReplyCase{muts=[Junk, Fds]}
 //!   c06_bereq  : [bit0 reply_ack][nfds 0..=3][fd_at u16] bytes...             -> props::c06::run_br_raw
 //!   c20_valid  : [type selector] up to 6 u64 fields                          -> props::c20::VCase
+//!   c04_hist   : [features selector][pf u24] then 12-byte records [code][flags][8 seed bytes][val selector][spare]
+//!                -> props::c04::Hist (bodies are well-formed by construction: gen::wellformed_body sampled from the seed)
 use serde::{Deserialize, Serialize};
 
 use crate::engine::Ctx;
@@ -15,7 +17,7 @@ use crate::props::{c05, c06, c20};
 use crate::spec;
 use crate::stream::Negotiation;
 
-pub const TARGETS: &[(&str, &str)] = &[("c05_stream", "C05"), ("c06_reply", "C06"), ("c06_bereq", "C06"), ("c20_valid", "C20")];
+pub const TARGETS: &[(&str, &str)] = &[("c05_stream", "C05"), ("c06_reply", "C06"), ("c06_bereq", "C06"), ("c20_valid", "C20"), ("c04_hist", "C04")];
 
 #[derive(Serialize, Deserialize, Debug, Clone)]
 pub struct FuzzInput {
@@ -111,6 +113,42 @@ pub fn one(target: &str, ctx: &mut Ctx, d: &[u8]) -> Result<(), String> {
                 .collect();
             c20::check_one(ctx, &c20::VCase { ty: ty.to_string(), f })
         }
+        "c04_hist" => {
+            use crate::props::c04::{Hist, Req};
+            use proptest::strategy::{Strategy, ValueTree};
+            use proptest::test_runner::{Config, RngAlgorithm, TestRng, TestRunner};
+            let dev_features = match at(d, 0) % 3 {
+                0 => spec::VIRTIO_F_PROTOCOL_FEATURES | 0x1_0000_0003,
+                1 => 0x1_0000_0003,
+                _ => crate::engine::LATTICE64[at(d, 0) as usize % crate::engine::LATTICE64.len()],
+            };
+            let dev_pf = (u32::from_le_bytes([at(d, 1), at(d, 2), at(d, 3), 0]) & 0x3f_ffff) as u64;
+            let mut reqs = Vec::new();
+            let mut i = 4;
+            while i + 12 <= d.len() && reqs.len() < 12 {
+                let r = &d[i..i + 12];
+                i += 12;
+                let code = 1 + (r[0] as u32 % 44);
+                let mut seed = [0u8; 32];
+                seed[..8].copy_from_slice(&r[2..10]);
+                seed[8] = r[0];
+                let mut runner = TestRunner::new_with_rng(Config::default(), TestRng::from_seed(RngAlgorithm::ChaCha, &seed));
+                let (body, nfds) = match crate::gen::wellformed_body(code).new_tree(&mut runner) {
+                    Ok(t) => t.current(),
+                    Err(_) => continue,
+                };
+                let lat = crate::engine::LATTICE64;
+                let outcome = crate::rec_backend::Outcome {
+                    fail: if r[1] & 2 != 0 && code != 16 { Some(r[1] >> 4) } else { None },
+                    val: if code == 1 || code == 15 || r[10] & 1 == 0 { None } else { Some(lat[r[10] as usize % lat.len()]) },
+                    val2: lat[r[11] as usize % lat.len()],
+                    bytes: None,
+                    file: r[1] & 4 != 0,
+                };
+                reqs.push(Req { code, need_reply: r[1] & 1 != 0, body, nfds, outcome });
+            }
+            crate::props::c04::run_hist(ctx, &Hist { dev_features, dev_pf, reqs })
+        }
         other => Err(format!("unknown fuzz target {other}")),
     }
 }
@@ -162,6 +200,19 @@ pub fn seeds(target: &str) -> Vec<Vec<u8>> {
                 for ra in [0u8, 1] {
                     let mut v = vec![ra, nfds, 0, 0];
                     v.extend_from_slice(&spec::msg(code, 1 | if ra == 1 { 8 } else { 0 }, &body));
+                    out.push(v);
+                }
+            }
+        }
+        "c04_hist" => {
+            // negotiation prefixes followed by one request of every code, with and without NEED_REPLY
+            for code in 1u8..=44 {
+                for flags in [0u8, 1, 3] {
+                    let mut v = vec![0u8, 0xff, 0xff, 0x3f];
+                    for (c, f) in [(0u8, 0u8), (14, 0), (15, 0), (code - 1, flags)] {
+                        // record: code-1, flags, 8 seed bytes, val selector, spare  (SET_PROTOCOL_FEATURES bodies come from the seed)
+                        v.extend_from_slice(&[c, f, code, 1, 2, 3, 4, 5, 6, 7, 0, 0]);
+                    }
                     out.push(v);
                 }
             }
